@@ -1,7 +1,7 @@
 (** Model of storageUnit/storageunit.go (C16): a cacher and a persister under one lock.
 
     Definitions only.  The persister is a map wrapped with a FAILURE ORACLE: every
-    call of the persister's Put / Get / Has / Remove consumes one boolean of the oracle
+    call of the persister's Put / Get / Has / Remove / Close / Destroy consumes one boolean of the oracle
     list carried by the operation ([true] = the call returns an error and has no effect;
     an exhausted oracle never fails).  The cacher is ABSTRACT: any structure with the
     five operations below ([cacher_ops]) that satisfies [cacher_laws].
@@ -77,6 +77,23 @@ Definition per_has (p : pstore) (o : oracle) (k : bytes) : oracle * err :=
        | None => (o', ENotFound)
        end.
 
+(** persister.RangeKeys(handler) with a handler that always asks for more: every stored pair
+    (no error result, so no oracle bit; the order of visit is the persister's business) *)
+Definition per_range (p : pstore) : list (bytes * bytes) := p.
+
+(** persister.Close: a failing Close has no effect; a successful one keeps the stored data (it is
+    durable).  What a persister answers AFTER a successful Close is not modelled here (C09 does that
+    for the LevelDB persisters; memorydb.Close does nothing): histories continue after a successful
+    Close only where Close has no effect on the persister object. *)
+Definition per_close (p : pstore) (o : oracle) : oracle * err :=
+  let '(b, o') := take_bit o in
+  if b then (o', EInjected) else (o', ENone).
+
+(** persister.Destroy: "removes the storage medium stored data" *)
+Definition per_destroy (p : pstore) (o : oracle) : pstore * oracle * err :=
+  let '(b, o') := take_bit o in
+  if b then (p, o', EInjected) else ([], o', ENone).
+
 (** ** The abstract cacher (types.Cacher as far as the unit uses it) *)
 Record cacher_ops : Type := {
   c_st     : Type;
@@ -136,11 +153,22 @@ Inductive uop : Type :=
 | OClearCache
 | OBulk (ks : list bytes) (epoch : N) (o : oracle).
 
+(** The life-cycle operations are kept apart from the data operations above: a history of [lop] is an
+    arbitrary interleaving of data operations with RangeKeys, DestroyUnit and Close.  (The theorems over
+    [list uop] are about histories without them and hold for every lawful cacher; a successful
+    DestroyUnit needs more of the cacher - that its Clear forgets everything - see Props/C16.v.) *)
+Inductive lop : Type :=
+| LData (op : uop)
+| LRangeKeys
+| LDestroyUnit (o : oracle)
+| LClose (o : oracle).
+
 Inductive uout : Type :=
 | RErr (e : err)                       (* Put, Remove, Has: the returned error *)
 | RGet (g : gres)                      (* Get: value or error *)
 | RNone                                (* ClearCache *)
-| RBulk (l : list (bytes * bytes)).    (* GetBulkFromEpoch: the pairs (error always nil) *)
+| RBulk (l : list (bytes * bytes))     (* GetBulkFromEpoch: the pairs (error always nil) *)
+| RRange (l : list (bytes * bytes)).   (* RangeKeys: the pairs handed to the handler *)
 
 (** ** The unit *)
 Section Unit.
@@ -211,6 +239,24 @@ Definition unit_remove_from_current_epoch (s : ustate) (k : bytes) (o : oracle) 
 Definition unit_clear_cache (s : ustate) : ustate :=
   {| u_cache := c_clear C (u_cache s); u_pers := u_pers s |}.
 
+(** RangeKeys: [u.persister.RangeKeys(handler)] - no lock, the cache is not consulted *)
+Definition unit_range_keys (s : ustate) : ustate * list (bytes * bytes) := (s, per_range (u_pers s)).
+
+(** DestroyUnit: lock; cacher.Clear(); return persister.Destroy() *)
+Definition unit_destroy (s : ustate) (o : oracle) : ustate * oracle * err :=
+  let c1 := c_clear C (u_cache s) in
+  let '(p1, o1, e) := per_destroy (u_pers s) o in
+  ({| u_cache := c1; u_pers := p1 |}, o1, e).
+
+(** Close: cacher.Clear(); err := persister.Close(); if err != nil { log; return err }; return nil *)
+Definition unit_close (s : ustate) (o : oracle) : ustate * oracle * err :=
+  let c1 := c_clear C (u_cache s) in
+  let '(o1, e) := per_close (u_pers s) o in
+  match e with
+  | ENone => ({| u_cache := c1; u_pers := u_pers s |}, o1, ENone)
+  | _ => ({| u_cache := c1; u_pers := u_pers s |}, o1, e)
+  end.
+
 Definition unit_step (s : ustate) (op : uop) : ustate * uout :=
   match op with
   | OPut k v o => let '(s', _, e) := unit_put s k v o in (s', RErr e)
@@ -225,6 +271,14 @@ Definition unit_step (s : ustate) (op : uop) : ustate * uout :=
   | OBulk ks ep o => let '(s', _, l) := unit_bulk s ks o in (s', RBulk l)
   end.
 
+Definition life_step (s : ustate) (op : lop) : ustate * uout :=
+  match op with
+  | LData d => unit_step s d
+  | LRangeKeys => let '(s', l) := unit_range_keys s in (s', RRange l)
+  | LDestroyUnit o => let '(s', _, e) := unit_destroy s o in (s', RErr e)
+  | LClose o => let '(s', _, e) := unit_close s o in (s', RErr e)
+  end.
+
 (** the trace of a history: every operation with its output; and the final state *)
 Fixpoint unit_run (s : ustate) (ops : list uop) : list (uop * uout) :=
   match ops with
@@ -234,6 +288,15 @@ Fixpoint unit_run (s : ustate) (ops : list uop) : list (uop * uout) :=
 
 Definition unit_final (s : ustate) (ops : list uop) : ustate :=
   fold_left (fun st op => fst (unit_step st op)) ops s.
+
+Fixpoint life_run (s : ustate) (ops : list lop) : list (lop * uout) :=
+  match ops with
+  | [] => []
+  | op :: r => let '(s', out) := life_step s op in (op, out) :: life_run s' r
+  end.
+
+Definition life_final (s : ustate) (ops : list lop) : ustate :=
+  fold_left (fun st op => fst (life_step st op)) ops s.
 
 End Unit.
 
@@ -251,6 +314,16 @@ Definition ack_step (m : pstore) (x : uop * uout) : pstore :=
   | _ => m
   end.
 Definition ack_map (tr : list (uop * uout)) : pstore := fold_left ack_step tr [].
+
+(** the same over life-cycle histories: an acknowledged DestroyUnit withdraws every write; RangeKeys
+    and Close (acknowledged or not) write nothing *)
+Definition life_ack_step (m : pstore) (x : lop * uout) : pstore :=
+  match x with
+  | (LData d, out) => ack_step m (d, out)
+  | (LDestroyUnit _, RErr ENone) => []
+  | _ => m
+  end.
+Definition life_ack_map (tr : list (lop * uout)) : pstore := fold_left life_ack_step tr [].
 
 (** what a map answers *)
 Definition spec_get (m : pstore) (k : bytes) : gres :=
